@@ -372,11 +372,14 @@ def generate(seed: int, index: int, profile: str = "default") -> dict:
     else:
         nranks = rng.choice([1, 2, 2, 3, 3, 3, 4, 4])
         maxcomm = 6
-    n = rng.choice([1, 2, 3])
+    n = rng.choice([1, 2, 3, 1, 2, 3, 1, 2, 3, 2, 3, 0])       # zero-size arrays now and then
+    scalar = n > 0 and rng.random() < 0.07                       # 0-d arrays: every array has shape ()
+    if scalar:
+        n = 1
     tagstyle = rng.choice(["int", "str", "mixed", "mixed"])
     b = _Builder(rng, nranks, n, tagstyle)
     dstyle = rng.choice(["int", "int", "mixed", "mixed", "float64", "complex128", "float32"])
-    b.kind_prob = rng.choice([0.0, 0.0, 0.3, 0.6])
+    b.kind_prob = 0.0 if scalar else rng.choice([0.0, 0.0, 0.3, 0.6])
     for r in range(nranks):
         for nm in rng.choice([["x"], ["x", "y"]]):
             nd = {"op": "input", "name": nm}
@@ -487,6 +490,8 @@ def generate(seed: int, index: int, profile: str = "default") -> dict:
     b.finish(collide_names=rng.random() < 0.08)
     s = b.spec(topo)
     s["seed"], s["index"], s["profile"] = seed, index, profile
+    if scalar:
+        s["scalar"] = True
     return s
 
 
@@ -690,7 +695,7 @@ def cast_small(vals, dtype):
     a = np.array(vals, dtype=np.int64)
     dt = np.dtype(dtype)
     if dt.kind == "c":
-        return (a + 1j * (a[::-1] + 1)).astype(dt)
+        return (a + 1j * ((a[::-1] if a.ndim else a) + 1)).astype(dt)
     if dt.kind == "b":
         return a % 2 == 0
     return a.astype(dt)
@@ -706,7 +711,10 @@ def input_dtype(spec, rank, name):
 def input_value(spec, rank, name):
     """deterministic small data for input `name` of `rank`, of the input's dtype"""
     rng = random.Random(f"in:{spec.get('seed', 0)}:{spec.get('index', 0)}:{rank}:{name}")
-    return cast_small([rng.randint(-3, 3) for _ in range(spec["n"])], input_dtype(spec, rank, name))
+    vals = [rng.randint(-3, 3) for _ in range(spec["n"])]
+    if spec.get("scalar"):
+        vals = vals[0]
+    return cast_small(vals, input_dtype(spec, rank, name))
 
 
 def kind_value(kind, args, n):
@@ -908,12 +916,13 @@ def build(spec, rank):
 
     rk = spec["ranks"][rank]
     n = spec["n"]
+    vshape = () if spec.get("scalar") else (n,)
     tags = [tag_to_py(t) for t in spec["tags"]]
     vals: list[Any] = []
     for nd in rk["nodes"]:
         op = nd["op"]
         if op == "input":
-            v = pt.make_placeholder(nd["name"], (n,), np.dtype(nd.get("dtype", "int64")))
+            v = pt.make_placeholder(nd["name"], vshape, np.dtype(nd.get("dtype", "int64")))
         elif op == "data":
             v = pt.make_data_wrapper(cast_small(nd["values"], nd.get("dtype", "int64")),      # unnamed
                                      tags=frozenset([_nodeid_class()(len(vals))]))
@@ -925,7 +934,7 @@ def build(spec, rank):
             extra = frozenset()
             if nd.get("variant", 0):
                 extra = frozenset([_Variant(nd["variant"])])
-            v = pt.make_distributed_recv(nd["src"], tags[nd["tag"]], tuple(nd.get("shape", [n])),
+            v = pt.make_distributed_recv(nd["src"], tags[nd["tag"]], tuple(nd["shape"]) if "shape" in nd else vshape,
                                          np.dtype(nd.get("dtype", "int64")), tags=extra)
         elif op == "add":
             v = vals[nd["a"]] + vals[nd["b"]]
@@ -1014,7 +1023,15 @@ def apply_fault(spec, kind, site, variant=0):
             sp.setdefault("faults", []).append([kind, site, variant])
             return sp
         else:
-            data = nd["data"] if variant % 2 == 0 else 0
+            data = nd["data"]
+            if variant % 2 == 1:
+                # another array of the SAME dtype and shape (the two ends of a message must agree on both)
+                nodes_ = rk["nodes"]
+                want = (spec_dtype(nodes_, nd["data"]), np.shape(_dummy_value(nodes_, nd["data"], sp["n"])))
+                cands = [i for i in range(len(nodes_)) if i != nd["data"] and nodes_[i]["op"] not in ("send", "alias")
+                         and (spec_dtype(nodes_, i), np.shape(_dummy_value(nodes_, i, sp["n"]))) == want]
+                if cands:
+                    data = cands[0]
             rk["nodes"].append({"op": "send", "data": data, "dst": nd["dst"], "tag": nd["tag"], "pass": 0})
         _add_output(rk, len(rk["nodes"]) - 1)
     elif kind == "retag_send":
@@ -1392,7 +1409,7 @@ def samearray_family():
 
 def families():
     """all hand-built families, as (profile, spec) — every spec carries its own 'profile'/'index'"""
-    for fam in (reuse_family, fanin_family, datawrapper_family, samearray_family, kinds_family):
+    for fam in (reuse_family, fanin_family, datawrapper_family, samearray_family, kinds_family, sametag_family):
         yield from fam()
 
 
@@ -1470,4 +1487,40 @@ def kinds_family():
                                  {"nodes": r1, "outputs": [["aux", len(r1) - 1]]}],
                        "seed": 0, "index": idx, "profile": "kinds",
                        "family": {"kind": kind, "bare": bare, "dtype": dt}}
+                idx += 1
+
+
+def sametag_family():
+    """Valid programs in which ONE symbolic tag (or two, of different Python types) is used by
+    many messages between DIFFERENT rank pairs: rings in both directions over 3 and 4 ranks."""
+    idx = 0
+    for nranks in (3, 4):
+        for style in ("s", "i", "t", "c", "mixed2"):
+            for both_dirs in (False, True):
+                tags = _styled_tags(1, style if style != "mixed2" else "s", idx)
+                if style == "mixed2":
+                    tags = [["s", "7"], ["i", 7]]            # the str "7" and the int 7: different tags
+                ranks = [{"nodes": [{"op": "input", "name": "x"}], "outputs": []} for _ in range(nranks)]
+                hold = [0] * nranks
+                incoming = {r: [] for r in range(nranks)}
+                msgs = [(r, (r + 1) % nranks, 0) for r in range(nranks)]
+                if both_dirs:
+                    msgs += [((r + 1) % nranks, r, len(tags) - 1) for r in range(nranks)]
+                for src, dst, t in msgs:
+                    nodes = ranks[src]["nodes"]
+                    nodes.append({"op": "addc", "a": 0, "c": len(nodes)})
+                    nodes.append({"op": "send", "data": len(nodes) - 1, "dst": dst, "tag": t, "pass": hold[src]})
+                    hold[src] = len(nodes) - 1
+                    incoming[dst].append((src, t))
+                for r in range(nranks):
+                    nodes = ranks[r]["nodes"]
+                    acc = hold[r]
+                    for src, t in incoming[r]:
+                        nodes.append({"op": "recv", "src": src, "tag": t, "variant": 0})
+                        nodes.append({"op": "add", "a": acc, "b": len(nodes) - 1})
+                        acc = len(nodes) - 1
+                    ranks[r]["outputs"] = [["res", acc]]
+                yield {"nranks": nranks, "n": 2, "topology": "sametag", "tags": tags, "ranks": ranks,
+                       "seed": 0, "index": idx, "profile": "sametag",
+                       "family": {"nranks": nranks, "tags": style, "both_directions": both_dirs}}
                 idx += 1
